@@ -135,6 +135,11 @@ class Interp:
         """a == b  -> bool | SBool (never forks)."""
         if a is b and not isinstance(a, float):
             return True
+        hooks = self.rt.eq_hooks
+        if hooks:
+            hook = hooks.get(type(a).__name__) or hooks.get(type(b).__name__)
+            if hook is not None and not (isinstance(a, Sym) and type(a).__name__ == "SReal" and False):
+                return hook(self.rt, self, a, b)
         if isinstance(a, Sym) or isinstance(b, Sym):
             return self.rt.sym_eq(self, a, b)
         if isinstance(a, (NT, tuple, list)) and isinstance(b, (NT, tuple, list)):
